@@ -40,7 +40,14 @@ def mixed_streams(ctx, rng, n):
           fr = wiresys.pickle_frame(dps, 2)
           if len(fr) - 4 > wiresys.PICKLE_MAX:
             continue
-          frames.append(dict(bytes=fr, kind='good', dps=dps))
+          exact = False
+          if rng.random() < 0.35 and all(ord(ch) < 128 for ch in dps[0][0]):
+            # a frame whose payload is exactly as long as the configured maximum (or 1-3 bytes shorter): not "exceeding" it
+            want = wiresys.PICKLE_MAX - rng.choice([0, 0, 1, 2, 3])
+            dps = [(dps[0][0] + 'a' * (want - (len(fr) - 4)), dps[0][1], dps[0][2])]
+            fr = wiresys.pickle_frame(dps, 2)
+            exact = len(fr) - 4 == want
+          frames.append(dict(bytes=fr, kind='good', dps=dps, exact=exact))
         else:
           dp = wiresys.gen_datapoint(rng)
           frames.append(dict(bytes=wiresys.line_of(dp), kind='good', dps=[dp]))
